@@ -1,6 +1,6 @@
 (* Property C07 — start/finish notifications are balanced, nested and correctly attributed.
    This file contains only statements proved elsewhere (RefDen.v, RefC01.v, RefIds.v).
-   PARTIAL.  Proved for all programs / valuations:
+   Proved for all programs / valuations (the FULL lifecycle theorem C07_reference_semantics is at the end of this file; the statements (1)-(3) are kept as corollaries of independent interest):
    (1) C07_sync_partial: under the fully re-entrant schedule the notifications are the
        denotation [den_*]: every task is  TS · body · TF  with the same name, site and
        parameters, every service  SS · SF , children strictly inside their parent, the
@@ -11,7 +11,7 @@
    (3) C07_fresh_identifiers: instances are told apart by identifiers that are never reused.
    Not proved: the full lifecycle monitor [holds_C07] for arbitrary interleavings; it is
    applied to every implementation trace and to both models' traces by the check. *)
-From PFDL Require Import RefSem RunCase Monitors RefShape RefDen RefC01 RefIds.
+From PFDL Require Import RefSem RunCase Monitors RefShape RefDen RefC01 RefIds Examples RefC07.
 
 Theorem C07_sync_partial :
   forall orc body fuel (s : sched) b s',
@@ -36,3 +36,28 @@ Theorem C07_fresh_identifiers :
     run_script orc imm fuel body sched0 cs = Ok tr -> ranged 0 0 tr.
 Proof. intros orc imm body fuel cs tr H. exact (ranged_ref orc imm body fuel cs sched0 tr H). Qed.
 Print Assumptions C07_fresh_identifiers.
+
+(* ==== the full lifecycle theorem (RefC07.v): all interleavings, all histories ==== *)
+(* for every unfolded program body, every value oracle, every choice of services that are
+   completed from inside their own service-started notification, every amount of fuel and
+   every script of API calls (start, completion of ANY identifier, junk events,
+   registrations, observer attach/detach) *)
+Theorem C07_reference_semantics :
+  forall (orc : oracle) (imm : nat -> bool) (body : list xstmt) (fuel : nat)
+         (script : list apicall) (tr : list callrec),
+    run_script orc imm fuel body sched0 script = Ok tr -> holds_C07 script tr = true.
+Proof. exact C07_ref. Qed.
+Print Assumptions C07_reference_semantics.
+
+(* the same, for source programs (call-tree unfolding included) *)
+Theorem C07_programs :
+  forall (c : runcase) (tr : list callrec), run_ref c = Ok tr -> holds_C07 (rc_script c) tr = true.
+Proof. exact C07_ref_programs. Qed.
+Print Assumptions C07_programs.
+
+(* the hypothesis is inhabited by a non-trivial run that completes the order *)
+Theorem C07_nonvacuous :
+  exists tr, run_ref ex_case = Ok tr /\ existsb (fun r => cr_final r) tr = true
+             /\ holds_C07 (rc_script ex_case) tr = true.
+Proof. exact C07_ref_nonvacuous. Qed.
+Print Assumptions C07_nonvacuous.
